@@ -22,6 +22,42 @@ var c02Templates = []tmpl{
 	{"depth2-escaped-after-return", `mk := func() { x := a; return func() { return func() { x = x + 1; return x } } }; g := mk()(); g(); g()`, func(a, b, c, n int64) tOut { return outInt(a + 2) }},
 	{"depth2-middle-binding", `mk := func() { return func() { y := b; return func() { y = y + 1; return y } } }; g := mk()(); g(); g()`, func(a, b, c, n int64) tOut { return outInt(b + 2) }},
 	{"depth2-created-under-foreign-frame", `mk := func() { x := a; return func() { return func() { return x } } }; mid := mk(); wrapper := func() { y := b; return mid() }; wrapper()()`, func(a, b, c, n int64) tOut { return outInt(a) }},
+	{"many-locals-capture-write-both-ways", `outer := func() { l1 := 1; l2 := 2; l3 := 3; l4 := 4; l5 := 5; l6 := 6; l7 := 7; l8 := 8; l9 := 9; k := a; inc := func() { k = k + 1; return k }; get := func() { return k }; k = b; inc(); seen := k; return get() + seen + l1 + l9 }; outer()`, func(a, b, c, n int64) tOut {
+		return outInt((b + 1) + (b + 1) + 10)
+	}},
+	{"many-locals-escaped", `mk := func() { l1 := 1; l2 := 2; l3 := 3; l4 := 4; l5 := 5; l6 := 6; l7 := 7; l8 := 8; l9 := 9; l10 := 10; k := a; return [func() { k = k + l10; return k }, func() { return k + l1 }] }; p := mk(); p[0](); p[0](); p[1]()`, func(a, b, c, n int64) tOut {
+		return outInt(a + 20 + 1)
+	}},
+	{"eight-locals-boundary", `outer := func() { l1 := 1; l2 := 2; l3 := 3; l4 := 4; l5 := 5; l6 := 6; k := a; set := func() { k = b }; set(); k = k + 1; g := func() { return k }; return g() + l6 }; outer()`, func(a, b, c, n int64) tOut {
+		return outInt(b + 1 + 6)
+	}},
+	{"shadow-captured-in-nested-block", `outer := func() { x := a; inner := func() { seen := x; r := 0; if true { x := b; if true { x = x + 5 }; r = x }; return seen + r }; v := inner(); return v - x }; outer()`, func(a, b, c, n int64) tOut {
+		return outInt(a + (b + 5) - a)
+	}},
+	{"shadow-captured-then-read-outer", `outer := func() { x := a; inner := func() { y := x; if c > 0 { x := b; y = y + x }; return y + x }; return inner() }; outer()`, func(a, b, c, n int64) tOut {
+		if c > 0 {
+			return outInt(a + b + a)
+		}
+		return outInt(a + a)
+	}},
+	{"tuple-assign-to-captured", `mk := func() { p := a; q := b; swap := func() { p, q = [q, p] }; get := func() { return p - q }; return [swap, get] }; fs := mk(); fs[0](); fs[1]()`, func(a, b, c, n int64) tOut {
+		return outInt(b - a)
+	}},
+	{"tuple-assign-to-captured-in-callback", `mk := func() { p := a; q := b; swap := func(ignored) { p, q = [q, p] }; get := func() { return p - q }; return [swap, get] }; fs := mk(); [0, 0, 0].each(fs[0]); fs[1]()`, func(a, b, c, n int64) tOut {
+		return outInt(b - a)
+	}},
+	{"compound-and-postfix-on-captured", `mk := func() { k := a; return [func() { k += b; k++; k -= 1 }, func() { return k }] }; fs := mk(); fs[0](); fs[0](); fs[1]()`, func(a, b, c, n int64) tOut {
+		return outInt(a + 2*b)
+	}},
+	{"second-free-variable", `mk := func() { u := a; v := b; w := c; return func() { v = v + 1; w = w + 2; return u + v + w } }; g := mk(); g(); g()`, func(a, b, c, n int64) tOut {
+		return outInt(a + b + 2 + c + 4)
+	}},
+	{"closure-with-default-argument", `mk := func() { base := a; return func(x, y=5) { return base + x + y } }; g := mk(); g(b) + g(b, c)`, func(a, b, c, n int64) tOut {
+		return outInt((a + b + 5) + (a + b + c))
+	}},
+	{"closure-with-default-via-callback", `mk := func() { base := a; return func(x, y=7) { return base + x + y } }; r := 0; g := mk(); [b].each(func(v) { r = g(v) }); r`, func(a, b, c, n int64) tOut {
+		return outInt(a + b + 7)
+	}},
 	{"depth3-curried", `f := func(p) { return func(q) { return func(r) { return p - q - r } } }; f(a)(b)(c)`, func(a, b, c, n int64) tOut { return outInt(a - b - c) }},
 	{"depth3-curried-stepwise", `f := func(p) { return func(q) { return func(r) { return p - q - r } } }; g := f(a); h := g(b); h(c)`, func(a, b, c, n int64) tOut { return outInt(a - b - c) }},
 	{"depth3-inplace", `f := func(p) { g := func(q) { h := func(r) { return p - q - r }; return h(c) }; return g(b) }; f(a)`, func(a, b, c, n int64) tOut { return outInt(a - b - c) }},
